@@ -107,7 +107,7 @@ MUT_TOKENS = ["%", "%%", "@", "!value ", "!tagged ", "$gontainer", "&a ", "*a", 
 def mutate(data, rng):
     b = bytearray(data)
     for _ in range(rng.choice([1, 1, 2, 3, 5])):
-        op = rng.randrange(8)
+        op = rng.randrange(9)
         pos = rng.randrange(len(b) + 1) if b else 0
         if op == 0 and b:
             b[rng.randrange(len(b))] = rng.randrange(256)
@@ -131,6 +131,9 @@ def mutate(data, rng):
             b = bytearray(b"\n".join(lines))
         elif op == 6 and b:
             b = b[:pos]
+        elif op == 8 and b:
+            b = bytearray(bytes(b).replace(b"\n", rng.choice([b"\r", b"\r\n", "\u2028".encode(), "\u0085".encode(), "\u2029".encode()]),
+                                           rng.choice([-1, 1, 3])))
         else:
             b[pos:pos] = bytes([rng.randrange(256) for _ in range(rng.choice([1, 3, 10]))])
     return bytes(b)
@@ -175,6 +178,32 @@ def run_c12(tier):
         inputs.append(("many-cycles", [("services:\n" + svcs + "\n").encode()], None, {}))
         pars = "\n".join("  p%d: \"%s\"" % (i, "".join("%%p%d%%" % j for j in range(n))) for i in range(n))
         inputs.append(("many-param-cycles", [("parameters:\n" + pars + "\n").encode()], None, {}))
+    # ---- (b2) line-break styles (YAML also breaks lines at CR, NEL, LS, PS) with and without syntax errors; byte-order marks
+    broken = ["services:\n  a:\n    constructor: NewA\n   bad: [1, 2\n  b: {\n", "parameters:\n  p: 'x\n  q: 1\nservices:\n\t- 1\n",
+              "parameters:\n  # comment\n  p: \"abc\n\n\n\n  q: ]\n", pipeline.BASE, pipeline.BASE + "  zz: [\n"]
+    for txt in broken:
+        for nl in ("\r", "\r\n", "\u0085", "\u2028", "\u2029", "\n\r"):
+            inputs.append(("line-breaks", [txt.replace("\n", nl).encode()], None, {}))
+            inputs.append(("line-breaks", [("# a" + nl + "# b" + nl + "# c" + nl + txt).encode()], None, {}))
+            inputs.append(("line-breaks", [txt.replace("p:", "p: \"" + nl * 7 + "\"\n  r:", 1).encode()], None, {}))
+        for enc in ("utf-8-sig", "utf-16", "utf-16-le", "utf-16-be", "utf-32"):
+            inputs.append(("encodings", [txt.encode(enc)], None, {}))
+    # ---- (b3) aliases defined through themselves or each other, used in every position an import path can occur
+    loops = [{"app": "app/internal"}, {"log": "log"}, {"core": "util/core", "util": "core/util"}, {"a": "a"}, {"a": "b", "b": "a"},
+             {"a": "a/a/a"}, {"x": "x/../x"}, {"a": "b/c", "b": "c/a", "c": "a/b"}]
+    for al in loops:
+        k = sorted(al)[0]
+        for use in ({"services": {"s": {"constructor": k + "/p.New"}}}, {"services": {"s": {"type": "*" + k + ".T"}}},
+                    {"services": {"s": {"value": k + "/q.V"}}}, {"services": {"s": {"constructor": "NewA", "fields": {"F": "!value " + k + ".V"}}}},
+                    {"services": {"s": {"constructor": "NewA", "tags": ["t"]}}, "decorators": [{"tag": "t", "decorator": k + ".D"}]},
+                    {"meta": {"functions": {"f": k + ".F"}}}):
+            doc = {"meta": {"imports": dict(al)}}
+            for kk, vv in use.items():
+                if kk == "meta":
+                    doc["meta"].update(vv)
+                else:
+                    doc[kk] = vv
+            inputs.append(("alias-loops", [concretise.emit(doc, None).encode() + b"\n"], None, {}))
     # ---- (b') odd directory entries matched by the patterns
     for odd in ("dangling", "selfloop", "dir", "linktodir", "linktofile", "big", "empty", "nul", "several"):
         for pat in ("*.yaml", "odd.yaml", "*", "o??.yaml"):
